@@ -326,7 +326,7 @@ def spec() -> Spec:
              "non-trivial = the implementation returned a value and (where the shape contains one) rejected a bad set",
         trusted_base=["std::random_device is replaced in the harness by a deterministic stream (link-time interposition of its three "
                       "out-of-line members); the quality of the real entropy source is outside the model",
-                      "split runs in a forked child of the harness with a 1.5 s deadline (a hang is reported as `timeout`)"],
+                      "split runs in a forked child of the harness with a 2 s CPU-time limit (a hang is reported as `timeout`; a valid split needs milliseconds)"],
         assumptions=["share indices and bytes are uint8 values (the C++ types guarantee it); secrets are 32 bytes"],
         per_case_timeout=60.0,
         batch=1000,
